@@ -177,6 +177,7 @@ PROPS = {
         "title": "Module-level additions appear exactly as requested",
         "units": ["V6b_api2", "V3_remap"],
         "kani": ["k1_valtype_roundtrip", "k1_valtype_roundtrip_exn_cont", "k4_v128_bytes_preserved", "k4_ieee32_from_float_bits", "k4_ieee64_from_float_bits"],
+        "kani_thorough": ["k4_initexpr_numeric_const_matches_upstream"],   # ~4 min of CBMC: thorough tier only
         "obligations": ["K:k1_valtype_roundtrip*", "K:k4_*"] + V6_GLOBALS + V6_MEMS + ["V6b_api2.add_data.*", "V6b_api2.fn:Module::add_data", "V6b_api2.ModuleExports.add_export_*", "V6b_api2.fn:ModuleExports::add_export_*",
                         "V3_remap.InitInstr.*", "V3_remap.fn:InitInstr::fix_id_mapping"],
         "glue": [ENCODE_GLUE, "DataType -> ValType (content type) is abstract here (valtype_of); bit-exactness of constants (InitExpr::to_wasmencoder_type) and the emission of limits / payloads are not under contract at this commit"],
